@@ -152,6 +152,8 @@ def run_property(prop, tier, seed):
     if hasattr(mod, 'configure'):
         mod.configure(eng)
     roots = [t for t in getattr(mod, 'ROOTS', []) if t in R.contracts or not R.optional_targets.get(t)]
+    # every contract that carries clauses of this property is verified for it (not only the declared roots)
+    roots += [t for t, c in R.contracts.items() if prop in c.props and not c.inline and t not in roots]
     stats = []
     out_of_reach = []
     for target in roots:
@@ -244,6 +246,10 @@ def run_property(prop, tier, seed):
         with open(os.environ['PYVC_LIST'], 'w') as fh:
             for o in obls:
                 fh.write(f'{status(o)}\t{o.kind}\t{o.id}\n')
+    if os.environ.get('PYVC_DUMP'):
+        for o in obls:
+            if fnmatch.fnmatch(o.id, os.environ['PYVC_DUMP']):
+                print('=== DUMP', o.id, status(o)); print(o.smt2()[:6000])
     known_set = {id(o) for o, _ in known}
     n = len([o for o in obls if id(o) not in known_set])   # obligations under a recorded open finding are reported separately
     disch = sum(1 for o in obls if status(o) == 'discharged')
